@@ -55,16 +55,17 @@ def parse_budget(text, cfg):
 
 
 def setup_parse_budget():
+    """kept for symmetry: parse checks switch line monitoring on only when
+    needed (budget.guarded)"""
     import parglare.parser  # noqa
     import parglare.glr  # noqa
-    budget.watch_modules(budget.PARSE_MODULES)
 
 
 def setup_all_budget():
-    import parglare.tables  # noqa
-    import parglare.closure  # noqa
     setup_parse_budget()
-    budget.watch_modules(budget.TABLE_MODULES)
+
+
+_calls = [0]
 
 
 class Outcome:
@@ -77,11 +78,18 @@ class Outcome:
         self.steps = steps
 
 
-def run_parse(parser, text, B=None, **kw):
+def run_parse(parser, text, B=None, soft_timeout=2.0, **kw):
+    """parse into a uniform Outcome.  With a budget B the parse runs at full
+    speed under a short watchdog and is re-run under the deterministic line
+    budget only if the watchdog fires (and for 1 call in 64, to calibrate)."""
     try:
-        with budget.steps(B) as s:
-            v = parser.parse(text, **kw)
-        return Outcome("ok", v, steps=s.count)
+        if B is None:
+            v, steps = parser.parse(text, **kw), 0
+        else:
+            _calls[0] += 1
+            v, steps = budget.guarded(lambda: parser.parse(text, **kw), B, budget.PARSE_MODULES,
+                                      soft_timeout=soft_timeout, sample=_calls[0] % 64 == 0)
+        return Outcome("ok", v, steps=steps or 0)
     except budget.StepBudgetExceeded as e:
         return Outcome("budget", exc=e, steps=e.steps)
     except parglare.SyntaxError as e:
@@ -90,6 +98,17 @@ def run_parse(parser, text, B=None, **kw):
         return Outcome("syntax", exc=e)
     except Exception as e:
         return Outcome("other", exc=e)
+
+
+def run_parse_soft(parser, text, timeout, **kw):
+    """parse under a short watchdog only; Outcome("timeout") when it fires.
+    For checks that claim nothing about termination and merely have to get
+    past a non-terminating parse."""
+    try:
+        with budget.watchdog(timeout):
+            return run_parse(parser, text, None, **kw)
+    except budget.WatchdogTimeout:
+        return Outcome("timeout")
 
 
 def reconverging(chart):
